@@ -259,7 +259,30 @@ Record scase := SC { sc_lens : list N; sc_choices : list N; sc_wire : list N }.
 Definition check_scase (c : scase) : bool :=
   list_eqb N.eqb (send_lens (sc_lens c) (sc_choices c)) (sc_wire c).
 
-Inductive case := CR (c : rcase) | CS (c : scase).
+(* ------------------------------------------------------------------ *)
+(* Demultiplexing (muxer.readLoop): a segment goes to the instance registered
+   for (protocol id, direction) - the direction is the top bit of the id
+   field: response bit set = for the initiator (client) instance, clear = for
+   the responder (server) instance.  Each instance runs its own readLoop on
+   the payloads addressed to it, in wire order. *)
+Definition key := (N * bool)%type.
+Definition key_eqb (a b : key) : bool := (fst a =? fst b) && Bool.eqb (snd a) (snd b).
+Definition demux (wire : list (key * bytes)) (k : key) : list bytes :=
+  map snd (filter (fun s => key_eqb (fst s) k) wire).
+Definition recv_mux (accepts : N -> bytes -> bool) (cap : N) (wire : list (key * bytes)) (k : key) : rstate :=
+  recv accepts cap (demux wire k).
+
+(* duplex case: the interleaved wire (id, response bit, payload) fed to one
+   real muxer with a responder and an initiator instance of the same protocol
+   id, and what each instance's handler received *)
+Record dcase := DC { dc_id : N; dc_wire : list (key * bytes);
+                     dc_req_got : list (N * bytes); dc_req_err : bool;
+                     dc_resp_got : list (N * bytes); dc_resp_err : bool }.
+Definition check_dcase (c : dcase) : bool :=
+  check_rcase (RC (demux (dc_wire c) (dc_id c, false)) (dc_req_got c) (dc_req_err c)) &&
+  check_rcase (RC (demux (dc_wire c) (dc_id c, true)) (dc_resp_got c) (dc_resp_err c)).
+
+Inductive case := CR (c : rcase) | CS (c : scase) | CD (c : dcase).
 Definition check_case (c : case) : bool :=
-  match c with CR r => check_rcase r | CS s => check_scase s end.
+  match c with CR r => check_rcase r | CS s => check_scase s | CD d => check_dcase d end.
 Definition mismatches := failing check_case.
